@@ -297,6 +297,9 @@ message_write(struct message *msg, int fd)
 	}
 
 out:
+	/* Restore the ordering expected by searchheader(). */
+	VECTOR_SORT(msg->me_headers, cmpheaderkey);
+
 	if (fclose(fh) == EOF) {
 		warn("fclose");
 		error = 1;
